@@ -93,6 +93,14 @@ def scenarios():
     # an endpoint gives up connecting (timeout 0, peer absent) and never comes back: the peer must not "connect" to its ghost
     S["peer-gave-up"] = {"alice": [("open_t", "s", "bob", 0, 0.0)],
                          "bob": [("vsleep", 1.0), ("open", "s", "alice", 0, False), ("send", "s", "b1")]}
+    # an endpoint that was going to receive through a callback gives up connecting (peer absent), then opens the same key as a
+    # plain socket and receives the ordinary way
+    # (alice starts on that key only after bob has told her, over another socket id, that he is past his first attempt: a peer
+    # that arrives WHILE the other side is giving up talks to a ghost, which is the application's race, not the hub's)
+    S["gave-up-with-callbacks-then-plain"] = {"alice": [("open", "sync", "bob", 1, False), ("recv", "sync"), ("open", "s", "bob", 0, False),
+                                                        ("send", "s", "a1"), ("send", "s", "a2")],
+                                              "bob": [("open_t", "s", "alice", 0, 0.0, True), ("open", "sync", "alice", 1, False), ("send", "sync", "go"),
+                                                      ("open", "s", "alice", 0, False), ("recv", "s"), ("recv", "s")]}
     # a complete session: both sides open, talk, close
     S["open-talk-close"] = {"alice": [("open", "s", "bob", 0, False), ("recv", "s"), ("close", "s")],
                             "bob": [("open", "s", "alice", 0, False), ("send", "s", "b1"), ("close", "s")]}
@@ -194,14 +202,18 @@ class Endpoint:
                 continue
             if k == "open_t":
                 # connect with a given (small) timeout; whether the peer is already waiting is observed at the call
-                _, sn, remote, sid, tmo = op
+                _, sn, remote, sid, tmo = op[:5]
                 if sn in self.socks:
                     continue
                 import netqasm.sdk.classical_communication.thread_socket.socket_hub as hubmod
                 present = (remote, me, sid) in getattr(hubmod._socket_hub, "_open_sockets", ())
                 s.record(("call", me, "open_t", sn, remote, sid, tmo))
                 try:
-                    sock = ThreadSocket(me, remote, socket_id=sid, timeout=tmo)
+                    if len(op) > 5 and op[5]:
+                        # the endpoint that gives up was going to receive through a callback
+                        sock = _callback_class(s, me, sn, active=False)(me, remote, socket_id=sid, timeout=tmo)
+                    else:
+                        sock = ThreadSocket(me, remote, socket_id=sid, timeout=tmo)
                     self.socks[sn] = sock
                     self.keep.append(sock)
                     s.record(("ret", me, "open_t", sn, "ok", present))
